@@ -733,13 +733,20 @@ theorem core_others {T : List String} {a b : Spec.A} (h : Spec.CoreExt T a b)
 def SegGoal (cfg : Cfg) (a : Spec.A) (rd : Read) (evs : List Ev) (s2 : State) : Prop :=
   Inv cfg (Spec.segment cfg a rd evs) s2 ∧ ∀ p ∈ proven, Spec.NoErr p a → Spec.NoErr p (Spec.segment cfg a rd evs)
 
-theorem segGoal_of {cfg : Cfg} {a a0 W : Spec.A} {rd : Read} {evs : List Ev} {s2 : State}
-    (hseg : Spec.segment cfg a rd evs = Spec.applyDepartures W evs) (herr : a0.errs = a.errs)
+theorem segGoal_of2 {cfg : Cfg} {a a0 W : Spec.A} {rd : Read} {evs : List Ev} {s2 : State}
+    (hseg : Spec.segment cfg a rd evs = Spec.applyDepartures W evs)
+    (herr : ∀ p, p ∉ others → Spec.NoErr p a → Spec.NoErr p a0)
     (h : Inv cfg (Spec.applyDepartures W evs) s2 ∧
       (∀ p, p ∉ others → Spec.NoErr p a0 → Spec.NoErr p (Spec.applyDepartures W evs))) : SegGoal cfg a rd evs s2 := by
   unfold SegGoal
   rw [hseg]
-  exact ⟨h.1, fun p hp hn => h.2 p (proven_not hp) (by unfold Spec.NoErr; rw [herr]; exact hn)⟩
+  exact ⟨h.1, fun p hp hn => h.2 p (proven_not hp) (herr p (proven_not hp) hn)⟩
+
+theorem segGoal_of {cfg : Cfg} {a a0 W : Spec.A} {rd : Read} {evs : List Ev} {s2 : State}
+    (hseg : Spec.segment cfg a rd evs = Spec.applyDepartures W evs) (herr : a0.errs = a.errs)
+    (h : Inv cfg (Spec.applyDepartures W evs) s2 ∧
+      (∀ p, p ∉ others → Spec.NoErr p a0 → Spec.NoErr p (Spec.applyDepartures W evs))) : SegGoal cfg a rd evs s2 :=
+  segGoal_of2 hseg (fun p _ hn => by unfold Spec.NoErr; rw [herr]; exact hn) h
 
 theorem rdState_find (cfg : Cfg) (s : State) (rd : Read) (v : Nat) : (rdState cfg s rd).find v = s.find v := rfl
 
